@@ -927,3 +927,145 @@ func ruleFarLimit(c *Ctx) {
 		}
 	}
 }
+
+func init() {
+	register(&Rule{ID: "R12.sorted-lookup-consistent", Props: []string{"C12", "C01"}, Floor: 2,
+		Text: "the field list is ordered by name and List.Get leaves its scan early: every test `Y < entryName` whose true edge ends the scan and whose false edge leads to a match `entryName == X` (the true edge of which returns the entry) compares the same key that is matched (Y and X are the same expression) — an early exit taken on a shorter key (the part of a dotted name before the dot, say) ends the scan before the entry that would match the full name, and the field then reads as 0 in every WHERE / WHEREIN filter and in FGET",
+		Run:  ruleSortedLookupConsistent})
+}
+
+func ruleSortedLookupConsistent(c *Ctx) {
+	get := c.Func("internal/field", "List", "Get")
+	if get == nil {
+		c.und("anchors", 0, "field.List.Get not found")
+		return
+	}
+	info := get.Info()
+	fg := newFlowGraph(info, get.Decl.Body)
+	type site struct {
+		b   *cfg.Block
+		at  Loc
+		e   *ast.BinaryExpr // the match  N == X  /  an ordering atom  Y < N
+		cnd ast.Expr
+	}
+	var matches, exits []site
+	leaves := func(b *cfg.Block) bool {
+		for _, nd := range b.Nodes {
+			if _, ok := nd.(*ast.ReturnStmt); ok {
+				return true
+			}
+		}
+		// `break`: go/cfg turns it into an edge to the loop's done block
+		if len(b.Nodes) == 0 && len(b.Succs) == 1 {
+			switch b.Succs[0].Kind {
+			case cfg.KindForDone, cfg.KindRangeDone:
+				return true
+			}
+		}
+		return false
+	}
+	for _, b := range fg.G.Blocks {
+		if !fg.Reachable(b) {
+			continue
+		}
+		cond, _ := fg.condOf(b)
+		if cond == nil {
+			continue
+		}
+		at := Loc{b, len(b.Nodes) - 1, b.Nodes[len(b.Nodes)-1]}
+		if be, ok := ast.Unparen(cond).(*ast.BinaryExpr); ok && be.Op == token.EQL {
+			if t := info.TypeOf(be.X); t != nil && isStringType(t) {
+				if returns, _ := reachBlockAvoiding2(fg, b.Succs[0], func(l Loc) bool { return isReturn(l.Node) }); returns {
+					matches = append(matches, site{b, at, be, cond})
+				}
+			}
+		}
+		// an exit: the true edge leaves the scan; its ordering atoms are the string comparisons in the condition
+		if leaves(b.Succs[0]) {
+			ast.Inspect(cond, func(n ast.Node) bool {
+				if le, ok := n.(*ast.BinaryExpr); ok && (le.Op == token.LSS || le.Op == token.GTR) {
+					if t := info.TypeOf(le.X); t != nil && isStringType(t) {
+						exits = append(exits, site{b, at, le, cond})
+					}
+				}
+				return true
+			})
+		}
+	}
+	// conj: the conjuncts of a condition
+	var conj func(e ast.Expr, out *[]ast.Expr)
+	conj = func(e ast.Expr, out *[]ast.Expr) {
+		e = ast.Unparen(e)
+		if be, ok := e.(*ast.BinaryExpr); ok && be.Op == token.LAND {
+			conj(be.X, out)
+			conj(be.Y, out)
+			return
+		}
+		*out = append(*out, e)
+	}
+	// exclusive: one site lies under a condition whose negation dominates the other
+	exclusive := func(a, b Loc) bool {
+		fa, fb := fg.DominatingFacts(a), fg.DominatingFacts(b)
+		one := func(pos, neg []Fact) bool {
+			for _, nf := range neg {
+				if !nf.Neg {
+					continue
+				}
+				var cs []ast.Expr
+				conj(nf.E, &cs)
+				all := len(cs) > 0
+				for _, cj := range cs {
+					found := false
+					for _, pf := range pos {
+						if !pf.Neg && sameExpr(info, pf.E, cj) {
+							found = true
+						}
+					}
+					if !found {
+						all = false
+					}
+				}
+				if all {
+					return true
+				}
+			}
+			return false
+		}
+		return one(fa, fb) || one(fb, fa)
+	}
+	n := 0
+	for _, m := range matches {
+		for _, x := range exits {
+			// the exit can precede the match in the same iteration: it is not in an exclusive branch, and the match is
+			// reachable from the exit's false edge or the exit's block is the match's own
+			if x.b != m.b {
+				if exclusive(x.at, m.at) {
+					continue
+				}
+				if r, _ := reachBlockAvoiding2(fg, x.b, func(l Loc) bool { return l.Block == m.b }); !r {
+					continue
+				}
+			}
+			// normalise the atom to  Y < N  and find the entry name N shared with the match
+			y, nm := x.e.X, x.e.Y
+			if x.e.Op == token.GTR {
+				y, nm = x.e.Y, x.e.X
+			}
+			var key ast.Expr
+			switch {
+			case sameExpr(info, nm, m.e.X):
+				key = m.e.Y
+			case sameExpr(info, nm, m.e.Y):
+				key = m.e.X
+			default:
+				continue
+			}
+			n++
+			k := "Get/" + exprStr(x.e) + "⇒" + exprStr(m.e)
+			c.check(sameExpr(info, y, key), k, x.e.Pos(),
+				"the early exit and the match compare the same key "+exprStr(key),
+				"the scan is left when "+exprStr(y)+" sorts before the entry's name, but the entry is matched against "+exprStr(key)+": when the two differ (a dotted field name: the part before the dot sorts before the full name) the scan ends before the matching entry and the stored field reads as missing")
+		}
+	}
+	c.stat("lookup_exit_match_pairs", n)
+}
